@@ -54,7 +54,8 @@ Definition fixed2 : tables2 := {|
               ("Relation", SwConst "relation" "object"); ("TypeRef", SwRefFormat); ("default", SwError)];
   t2_composite := ["Set"; "Sequence"];
   t2_types_loop := LoopSortedKeys;
-  t2_attrs_loop := LoopSortedKeys
+  t2_attrs_loop := LoopSortedKeys;
+  t2_members_fresh := true
 |}.
 
 Lemma tables2_current : tables2_of_source = fixed2.
